@@ -983,16 +983,24 @@ func (c *Conn) handleBdat(arg string) {
 	if !c.fromReceived || len(c.recipients) == 0 {
 		// RFC 3030: the chunk of a refused BDAT must be discarded, it
 		// must not be interpreted as commands.
-		io.Copy(ioutil.Discard, io.LimitReader(c.text.R, int64(size)))
+		_, discardErr := io.Copy(ioutil.Discard, io.LimitReader(c.text.R, int64(size)))
 		c.writeResponse(502, EnhancedCode{5, 5, 1}, "Missing RCPT TO command.")
+		if discardErr != nil {
+			// The end of the chunk was not reached (timeout, connection
+			// error): what follows in the stream is not a command.
+			c.Close()
+		}
 		return
 	}
 
 	last := false
 	if len(args) == 2 {
 		if !strings.EqualFold(args[1], "LAST") {
-			io.Copy(ioutil.Discard, io.LimitReader(c.text.R, int64(size)))
+			_, discardErr := io.Copy(ioutil.Discard, io.LimitReader(c.text.R, int64(size)))
 			c.writeResponse(501, EnhancedCode{5, 5, 4}, "Unknown BDAT argument")
+			if discardErr != nil {
+				c.Close()
+			}
 			return
 		}
 		last = true
@@ -1002,7 +1010,9 @@ func (c *Conn) handleBdat(arg string) {
 		c.writeResponse(552, EnhancedCode{5, 3, 4}, "Max message size exceeded")
 
 		// Discard chunk itself without passing it to backend.
-		io.Copy(ioutil.Discard, io.LimitReader(c.text.R, int64(size)))
+		if _, err := io.Copy(ioutil.Discard, io.LimitReader(c.text.R, int64(size))); err != nil {
+			c.Close()
+		}
 
 		c.reset()
 		return
@@ -1072,11 +1082,11 @@ func (c *Conn) handleBdat(arg string) {
 	if err != nil {
 		// Backend might return an error early using CloseWithError without consuming
 		// the whole chunk.
-		io.Copy(ioutil.Discard, chunk)
+		_, discardErr := io.Copy(ioutil.Discard, chunk)
 
 		c.writeResponse(dataErrorToStatus(err))
 
-		if err == errPanic {
+		if err == errPanic || discardErr != nil {
 			c.Close()
 		}
 
